@@ -83,6 +83,8 @@ var extra = []string{
 	"steps: null\n",
 	"steps: []\nenv: {A: b}\n",
 	"steps:\n  - type: script\n    command: z\n  - type: 7\n",
+	// a type that is not a scalar (unhashable once decoded: seed C13k indexed a table keyed by any with it), top level and in a group
+	"steps:\n  - type: [command]\n    command: echo hi\n  - type: {wait: x}\n  - group: g\n    steps:\n      - type: [[wait]]\n        wait: ~\n      - type: []\n  - type: true\n",
 	"steps:\n  - group: ~\n    steps: ~\n  - group: g2\n    steps:\n      - group: inner\n        steps: [wait, {command: c}]\n",
 	"a: &a {command: shared}\nsteps:\n  - *a\n  - <<: *a\n    label: l\n",
 	// a multi-line string beginning with a tab in a generic position (listed finding: YAML marshalling fails)
